@@ -511,16 +511,25 @@ def rand_graph(g, rng, n_ops=6, allow_unsupported=True, allow_emb=True,
       made += 1
     elif k in ('add', 'sub', 'mul', 'maximum'):
       mode = rng.random()
+      const_first = False
       if mode < 0.5:
         u = pick(lambda u: g.shape[u] == sh)
       elif mode < 0.8:
-        u = g.const(k + '_c', g.w((sh[-1],) if rng.random() < 0.5 else sh))
+        cs = rng.random()
+        # constant operand: a row, a full tensor, or (as "x * 0.5" / "1 - x" converts) a rank-0 / one-element scalar
+        cshape = (sh[-1],) if cs < 0.4 else sh if cs < 0.75 else () if cs < 0.9 else (1,)
+        u = g.const(k + '_c', np.asarray(g.w(cshape), dtype=np.float32).reshape(cshape))
+        if len(cshape) == 0 or cshape == (1,):
+          g.classes.add('scalar_constant')
+        if rng.random() < 0.25:
+          g.classes.add('constant_first_operand')
+          const_first = True
       else:
         u = t  # repeated operand
         g.classes.add('repeated_operand')
       if u is None:
         continue
-      outs = [getattr(g, k)(t, u)]
+      outs = [getattr(g, k)(u, t) if const_first else getattr(g, k)(t, u)]
       ins.append(u)
     elif k == 'reshape':
       n = int(np.prod(sh))
@@ -879,7 +888,8 @@ SINGLE_OPS = {
     'EMBEDDING_LOOKUP': ['emb'],
     'AVERAGE_POOL_2D': ['avgpool'], 'RESHAPE': ['reshape'], 'SOFTMAX': ['softmax'], 'TANH': ['tanh'],
     'LOGISTIC': ['logistic'], 'GELU': ['gelu'], 'RSQRT': ['rsqrt'], 'TRANSPOSE': ['transpose'],
-    'ADD': ['add', 'add_const'], 'SUB': ['sub', 'sub_const'], 'MUL': ['mul', 'mul_const'],
+    'ADD': ['add', 'add_const', 'add_scalar'], 'SUB': ['sub', 'sub_const', 'sub_scalar', 'sub_constfirst'],
+    'MUL': ['mul', 'mul_const', 'mul_scalar', 'mul_constfirst'],
     'MEAN': ['mean'], 'CONCATENATION': ['concat'], 'STRIDED_SLICE': ['strided_slice'], 'SPLIT': ['split'],
 }
 
@@ -944,6 +954,16 @@ def single_op_model(rng, variant, odd=False):
       x = g.inp((2, o(6, 5)))
       c = g.const('c', g.w((g.shape[x][-1],) if rng.random() < 0.5 else g.shape[x]))
       return [getattr(g, v.split('_')[0])(x, c)]
+    if v in ('add_scalar', 'sub_scalar', 'mul_scalar'):
+      x = g.inp((2, o(6, 5)))
+      cshape = () if rng.random() < 0.6 else (1,)
+      c = g.const('c', np.asarray(g.w(cshape), dtype=np.float32).reshape(cshape))
+      return [getattr(g, v.split('_')[0])(x, c)]
+    if v in ('sub_constfirst', 'mul_constfirst'):
+      x = g.inp((2, o(6, 5)))
+      cshape = [(), (g.shape[x][-1],), g.shape[x]][int(rng.integers(3))]
+      c = g.const('c', np.asarray(g.w(cshape), dtype=np.float32).reshape(cshape))
+      return [getattr(g, v.split('_')[0])(c, x)]
     if v == 'mean':
       return [g.mean(g.inp((2, 3, 4)), [1], keep=bool(rng.random() < 0.5))]
     if v == 'concat':
